@@ -118,6 +118,10 @@ def concrete_run(h, cfg, assignment):
         err = f"HarnessError: {e}"
     except Exception as e:  # noqa: BLE001
         err = f"{type(e).__name__}: {e}\n" + traceback.format_exc(limit=6)
+        where = sym.raised_in_code_under_test(e)
+        if where is not None:
+            c.failed.append(sym.UNEXPECTED)
+            c.details[sym.UNEXPECTED] = f"{type(e).__name__}: {e} at {where}"
     return c, err
 
 
